@@ -57,6 +57,7 @@ type CallSpec struct {
 	K    int    `json:"k"`
 	Kind string `json:"kind"`
 	Cap  int    `json:"cap"`
+	Ctx  string `json:"ctx,omitempty"` // "done": the call is issued with a context that has already ended
 }
 
 type FrameSpec struct {
@@ -72,10 +73,11 @@ type FrameSpec struct {
 }
 
 type Step struct {
-	Op     string      `json:"op"` // calls | frames | break | peerclose | cancel
+	Op     string      `json:"op"` // calls | frames | break | peerclose | cancel | early | queued | midsend
 	Calls  []CallSpec  `json:"calls,omitempty"`
 	Frames []FrameSpec `json:"frames,omitempty"`
 	K      int         `json:"k,omitempty"`
+	Cancel []int       `json:"cancel,omitempty"` // queued: the callers whose context ends while their call is queued
 }
 
 // Event is one event of the model's trace, as observed.
@@ -113,6 +115,7 @@ type CallerObs struct {
 	Fields    []rpcx.Field `json:"fields,omitempty"`
 	Cancelled bool         `json:"cancelled,omitempty"`
 	Late      bool         `json:"late,omitempty"`
+	When      string       `json:"when,omitempty"` // where the call was when its context ended: issue | queued | midsend | pending
 }
 
 type Case struct {
@@ -172,6 +175,19 @@ func genResp(r *hx.Rng, kind string, tag int) []rpcx.Field {
 	return fs
 }
 
+// perm is a random permutation of 0..n-1.
+func perm(r *hx.Rng, n int) []int {
+	p := make([]int, n)
+	for i := range p {
+		p[i] = i
+	}
+	for i := n - 1; i > 0; i-- {
+		j := r.Intn(i + 1)
+		p[i], p[j] = p[j], p[i]
+	}
+	return p
+}
+
 var callKinds = []string{"hello", "hello", "hello", "read", "write", "close", "dialside", "dial"}
 
 type genState struct {
@@ -180,6 +196,7 @@ type genState struct {
 	kind     map[int]string
 	pending  []int // sent, not yet addressed by a frame
 	answered []int
+	abandoned []int // sent, the caller's context has ended, not yet addressed by a frame
 	steps    []Step
 	broken   bool
 	dead     bool // the generator's guess that serve has exited
@@ -387,6 +404,87 @@ func (g *genState) held(n int) {
 	g.frames([]FrameSpec{g.good(old), g.good(last)})
 }
 
+// doneCalls: n calls issued with a context that has already ended, followed
+// (in the same step, after they have returned) by live calls.
+func (g *genState) doneCalls(n, live int) {
+	kinds := []string{"hello", "hello", "read", "write", "close"}
+	var cs []CallSpec
+	for j := 0; j < n; j++ {
+		c := g.newCalls(1, kinds[g.r.Intn(len(kinds))])[0]
+		c.Ctx = "done"
+		cs = append(cs, c)
+	}
+	lv := g.newCalls(live, "hello")
+	g.steps = append(g.steps, Step{Op: "calls", Calls: append(cs, lv...)})
+	for _, c := range lv {
+		g.pending = append(g.pending, c.K)
+	}
+}
+
+// queued: serve is held right after taking one call off the queue; n more
+// calls are issued and sit in the queue; the contexts of some of them end
+// there; serve is released and sends everything.
+func (g *genState) queued(n, ncancel int) {
+	cs := g.newCalls(1+n, "hello")
+	var cancel []int
+	for _, j := range perm(g.r, n) {
+		if len(cancel) < ncancel {
+			cancel = append(cancel, cs[1+j].K)
+		}
+	}
+	g.steps = append(g.steps, Step{Op: "queued", Calls: cs, Cancel: cancel})
+	gone := map[int]bool{}
+	for _, k := range cancel {
+		gone[k] = true
+	}
+	for _, c := range cs {
+		if gone[c.K] {
+			g.abandoned = append(g.abandoned, c.K)
+		} else {
+			g.pending = append(g.pending, c.K)
+		}
+	}
+}
+
+// midsend: the context of a call ends while serve is between writing the
+// request and recording the call.
+func (g *genState) midsend() {
+	cs := g.newCalls(1, "hello")
+	g.steps = append(g.steps, Step{Op: "midsend", Calls: cs})
+	g.abandoned = append(g.abandoned, cs[0].K)
+}
+
+// ctxRound: one round of a history about contexts that end.
+func (g *genState) ctxRound() {
+	r := g.r
+	switch r.Intn(6) {
+	case 0, 1:
+		g.doneCalls(1+r.Intn(12), 1+r.Intn(2))
+	case 2:
+		g.queued(1+r.Intn(6), 1+r.Intn(3))
+	case 3:
+		g.midsend()
+	case 4: // the context of a call that is pending at the peer ends
+		g.calls(1+r.Intn(3), "")
+		k := g.takePending(len(g.pending) - 1)
+		g.answered = g.answered[:len(g.answered)-1]
+		g.abandoned = append(g.abandoned, k)
+		g.steps = append(g.steps, Step{Op: "cancel", K: k})
+	case 5: // the context of a call that has been answered ends: nothing happens
+		g.calls(1, "hello")
+		k := g.takePending(len(g.pending) - 1)
+		g.frames([]FrameSpec{g.good(k)})
+		g.steps = append(g.steps, Step{Op: "cancel", K: k})
+	}
+	// the peer may still answer a call whose caller has gone away
+	if len(g.abandoned) > 0 && r.Intn(3) == 0 {
+		i := r.Intn(len(g.abandoned))
+		k := g.abandoned[i]
+		g.abandoned = append(g.abandoned[:i], g.abandoned[i+1:]...)
+		g.frames([]FrameSpec{g.good(k)})
+	}
+}
+
 // early: one call whose reply the peer sends while serve is held between
 // the send and the recording of the call as pending.
 func (g *genState) early(kind string) {
@@ -447,6 +545,25 @@ func genHistory(seed uint64, i int) Case {
 		g.answerAll(false, false)
 		c.Steps = g.steps
 		return c
+	case 9: // the first call of the transport is held by the peer while 32 calls are issued with a finished context
+		c.Stream = "ctx"
+		g.calls(1, "hello")
+		g.doneCalls(32, 1)
+		g.frames([]FrameSpec{g.good(g.takePending(1))})
+		g.frames([]FrameSpec{g.good(g.takePending(0))})
+		c.Steps = g.steps
+		return c
+	case 10: // ... while contexts end in the queue, between send and store, and at the peer
+		c.Stream = "ctx"
+		g.calls(2, "hello")
+		g.queued(6, 3)
+		g.midsend()
+		g.calls(1, "read")
+		k := g.takePending(len(g.pending) - 1)
+		g.steps = append(g.steps, Step{Op: "cancel", K: k})
+		g.answerAll(false, false)
+		c.Steps = g.steps
+		return c
 	case 5: // replies with ids nobody has, at every distance a smaller key could confuse
 		c.Stream = "alias"
 		g.calls(3, "hello")
@@ -487,7 +604,7 @@ func genHistory(seed uint64, i int) Case {
 		return c
 	}
 	streams := []string{"perm", "perm", "perm", "bad", "bad", "bad", "sendfail", "errbyte",
-		"shutdown", "hint", "peerclose", "cancel", "mixed", "mixed", "garbage", "early", "alias"}
+		"shutdown", "hint", "peerclose", "cancel", "mixed", "mixed", "garbage", "early", "alias", "ctx", "ctx"}
 	c.Stream = streams[r.Intn(len(streams))]
 	if i%97 == 20 { // a few long histories with an old call answered late
 		c.Stream = "held"
@@ -496,6 +613,23 @@ func genHistory(seed uint64, i int) Case {
 		return c
 	}
 	rounds := 1 + r.Intn(3)
+	if c.Stream == "ctx" {
+		// older calls -- among them, mostly, the first call of the transport --
+		// stay outstanding while the contexts of younger ones end
+		g.calls(1+r.Intn(3), "")
+		if r.Intn(4) == 0 {
+			g.frames([]FrameSpec{g.good(g.takePending(0))})
+		}
+		for round := 0; round < rounds+1; round++ {
+			g.ctxRound()
+			if len(g.pending) > 2 && r.Bool() {
+				g.frames([]FrameSpec{g.good(g.takePending(1 + r.Intn(len(g.pending)-1)))})
+			}
+		}
+		g.answerAll(r.Intn(4) == 0, false)
+		c.Steps = g.steps
+		return c
+	}
 	for round := 0; round < rounds && !g.dead; round++ {
 		n := 1 + r.Intn(8)
 		if r.Intn(6) == 0 {
@@ -655,6 +789,7 @@ type caller struct {
 	cancelled bool
 	refused   bool
 	internal  bool
+	when      string // where the call was when its context ended
 }
 
 type runner struct {
@@ -672,6 +807,7 @@ type runner struct {
 	maxID   uint64
 	anyID   bool
 	nextInt int
+	stray   map[int]bool // callers that have returned although their request may still be sent
 }
 
 func (rn *runner) exited() bool {
@@ -693,6 +829,9 @@ func (rn *runner) event(e Event) { rn.c.Events = append(rn.c.Events, e) }
 
 func (rn *runner) startCaller(cs CallSpec) {
 	ctx, cancel := context.WithCancel(context.Background())
+	if cs.Ctx == "done" {
+		cancel()
+	}
 	cr := &caller{spec: cs, cancel: cancel}
 	rn.callers[cs.K] = cr
 	rn.order = append(rn.order, cs.K)
@@ -800,9 +939,90 @@ func (rn *runner) gotResult(r callRes) {
 	cr.res = &rr
 }
 
+// strayRequest records the request of a caller that has already returned
+// (its context ended while the call was queued): serve sends it all the same.
+func (rn *runner) strayRequest(data []byte) bool {
+	id, typ, k, ok := rn.identify(data, map[int]bool{})
+	if !ok || !rn.stray[k] {
+		return false
+	}
+	delete(rn.stray, k)
+	rn.sawRequest(id, typ, k)
+	return true
+}
+
+// doDone issues calls whose context has already ended and waits for them to
+// return.  asyncCall's select may still put such a call into the queue (the
+// send and ctx.Done() are both ready), in which case serve sends it later:
+// always before the request of any call issued after this function returns.
+func (rn *runner) doDone(cs []CallSpec) bool {
+	if len(cs) == 0 {
+		return true
+	}
+	want := map[int]bool{}
+	for _, c := range cs {
+		rn.startCaller(c)
+		want[c.K] = true
+	}
+	timeout := time.After(waitBound)
+	for len(want) > 0 {
+		select {
+		case data, ok := <-rn.reqs:
+			if !ok {
+				rn.reqs = nil
+				continue
+			}
+			id, typ, k, ok2 := rn.identify(data, map[int]bool{})
+			if ok2 && (want[k] || rn.stray[k]) {
+				delete(rn.stray, k)
+				rn.sawRequest(id, typ, k)
+				continue
+			}
+			rn.c.Hang = fmt.Sprintf("unidentified request id=%d typ=%d", id, typ)
+			return false
+		case r := <-rn.results:
+			rn.gotResult(r)
+			if !want[r.k] {
+				continue
+			}
+			delete(want, r.k)
+			cr := rn.callers[r.k]
+			switch r.kind {
+			case "alreadyshutdown":
+				cr.refused = true
+				rn.event(Event{E: "refused", K: r.k})
+			default:
+				cr.cancelled, cr.when = true, "issue"
+				rn.event(Event{E: "cancel", K: r.k})
+				if !cr.seen {
+					rn.stray[r.k] = true
+				}
+			}
+		case <-timeout:
+			rn.c.Hang = "a call issued with a finished context did not return"
+			return false
+		}
+	}
+	return true
+}
+
 func (rn *runner) doCalls(cs []CallSpec) bool {
 	need := map[int]bool{}
 	wasExited := rn.exited()
+	if !wasExited {
+		var pre, live []CallSpec
+		for _, c := range cs {
+			if c.Ctx == "done" {
+				pre = append(pre, c)
+			} else {
+				live = append(live, c)
+			}
+		}
+		if !rn.doDone(pre) {
+			return false
+		}
+		cs = live
+	}
 	for _, c := range cs {
 		rn.startCaller(c)
 		if wasExited {
@@ -826,6 +1046,11 @@ func (rn *runner) doCalls(cs []CallSpec) bool {
 			if !ok2 || k < 0 || !need[k] {
 				if ok2 && k == -1 {
 					rn.internalShutdown(id)
+					continue
+				}
+				if ok2 && rn.stray[k] {
+					delete(rn.stray, k)
+					rn.sawRequest(id, typ, k)
 					continue
 				}
 				rn.c.Hang = fmt.Sprintf("unidentified request id=%d typ=%d", id, typ)
@@ -1118,6 +1343,190 @@ wait:
 	return true
 }
 
+// endContext ends the context of caller k, whose call is at stage when, and
+// waits for the call to return.
+func (rn *runner) endContext(k int, when string) bool {
+	cr := rn.callers[k]
+	cr.cancelled, cr.when = true, when
+	rn.event(Event{E: "cancel", K: k})
+	cr.cancel()
+	deadline := time.After(waitBound)
+	for cr.res == nil {
+		select {
+		case r := <-rn.results:
+			rn.gotResult(r)
+		case <-deadline:
+			rn.c.Hang = "the context of a call (" + when + ") ended, but the call did not return"
+			cr.res = &callRes{k: k, kind: "none"}
+			return false
+		}
+	}
+	return true
+}
+
+// awaitRequests reads requests until those of all the given callers have
+// been seen.
+func (rn *runner) awaitRequests(need map[int]bool) bool {
+	timeout := time.After(waitBound)
+	for len(need) > 0 {
+		select {
+		case data, ok := <-rn.reqs:
+			if !ok {
+				rn.c.Hang = "connection closed while requests were expected"
+				return false
+			}
+			id, typ, k, ok2 := rn.identify(data, need)
+			if ok2 && rn.stray[k] {
+				delete(rn.stray, k)
+				rn.sawRequest(id, typ, k)
+				continue
+			}
+			if !ok2 || !need[k] {
+				rn.c.Hang = fmt.Sprintf("unidentified request id=%d typ=%d", id, typ)
+				return false
+			}
+			rn.sawRequest(id, typ, k)
+			delete(need, k)
+		case r := <-rn.results:
+			rn.gotResult(r)
+		case <-timeout:
+			rn.c.Hang = "queued calls were not sent"
+			return false
+		}
+	}
+	return true
+}
+
+// holdServe installs a hook that stops this transport's serve goroutine the
+// first time it reaches point; it returns a channel that tells when serve is
+// there and the function that lets it go on.
+func (rn *runner) holdServe(point string) (<-chan struct{}, func()) {
+	me := rn.cl.Transport()
+	at := make(chan struct{}, 1)
+	release := make(chan struct{})
+	var once, relOnce sync.Once
+	var taken atomic.Bool
+	sniproxy.VerifSetTrHook(func(p string, tr interface{}) {
+		if tr != me {
+			return
+		}
+		if p == "serve:take" {
+			taken.Store(true)
+		}
+		// (serve may still be in the tail of an earlier call's iteration: only
+		// a point reached after a take counts)
+		if p != point || !taken.Load() {
+			return
+		}
+		held := false
+		once.Do(func() { held = true })
+		if held {
+			at <- struct{}{}
+			<-release
+		}
+	})
+	return at, func() {
+		relOnce.Do(func() { close(release) })
+		sniproxy.VerifSetTrHook(nil)
+	}
+}
+
+// doQueued forces "the context ends while the call is still in the queue":
+// serve is held right after it has taken the first call of the step off the
+// queue (before it assigns the id), the other calls are issued and stay in
+// the queue, the contexts of st.Cancel end there, serve is let go.
+func (rn *runner) doQueued(st Step) bool {
+	if len(st.Calls) < 2 || rn.exited() || rn.sig {
+		return rn.doCalls(st.Calls)
+	}
+	at, release := rn.holdServe("serve:take")
+	defer release()
+	rn.startCaller(st.Calls[0])
+	select {
+	case <-at:
+	case <-time.After(waitBound):
+		rn.c.Hang = "queued: serve did not take the call"
+		return false
+	}
+	for j, c := range st.Calls[1:] {
+		rn.startCaller(c)
+		for t0 := time.Now(); rn.cl.QueuedCalls() < j+1; time.Sleep(50 * time.Microsecond) {
+			if time.Since(t0) > waitBound {
+				rn.c.Hang = "queued: the call did not get into the queue"
+				return false
+			}
+		}
+	}
+	for _, k := range st.Cancel {
+		if cr := rn.callers[k]; cr != nil && cr.res == nil {
+			if !rn.endContext(k, "queued") {
+				return false
+			}
+			rn.stray[k] = true
+		}
+	}
+	release()
+	need := map[int]bool{}
+	for _, c := range st.Calls {
+		if !rn.stray[c.K] {
+			need[c.K] = true
+		}
+	}
+	if !rn.awaitRequests(need) {
+		return false
+	}
+	// the abandoned calls were queued before the step ended: their requests
+	// follow on the wire
+	for len(rn.stray) > 0 {
+		more := false
+		for _, c := range st.Calls {
+			if rn.stray[c.K] {
+				more = true
+			}
+		}
+		if !more {
+			break
+		}
+		select {
+		case data, ok := <-rn.reqs:
+			if !ok || !rn.strayRequest(data) {
+				rn.c.Hang = "queued: unexpected request"
+				return false
+			}
+		case r := <-rn.results:
+			rn.gotResult(r)
+		case <-time.After(waitBound):
+			rn.c.Hang = "queued: the request of an abandoned call was not sent"
+			return false
+		}
+	}
+	return true
+}
+
+// doMidsend forces "the context ends while serve is between writing the
+// request and recording the call".
+func (rn *runner) doMidsend(st Step) bool {
+	if len(st.Calls) != 1 || rn.exited() || rn.sig {
+		return rn.doCalls(st.Calls)
+	}
+	at, release := rn.holdServe("serve:sent")
+	defer release()
+	k := st.Calls[0].K
+	rn.startCaller(st.Calls[0])
+	select {
+	case <-at:
+	case <-time.After(waitBound):
+		rn.c.Hang = "midsend: serve did not send the call"
+		return false
+	}
+	if !rn.awaitRequests(map[int]bool{k: true}) {
+		return false
+	}
+	ok := rn.endContext(k, "midsend")
+	release()
+	return ok
+}
+
 func (rn *runner) doFrames(fs []FrameSpec) bool {
 	hint := false
 	for _, f := range fs {
@@ -1205,6 +1614,10 @@ func (rn *runner) run() {
 			ok = rn.doFrames(st.Frames)
 		case "early":
 			ok = rn.doEarly(st)
+		case "queued":
+			ok = rn.doQueued(st)
+		case "midsend":
+			ok = rn.doMidsend(st)
 		case "break":
 			rn.cl.BreakWrites()
 		case "peerclose":
@@ -1219,26 +1632,52 @@ func (rn *runner) run() {
 				}
 			}
 		case "cancel":
+			// (what has returned already is collected first: the context of a
+			// call that has completed ends without any effect)
+			for more := true; more; {
+				select {
+				case r := <-rn.results:
+					rn.gotResult(r)
+				default:
+					more = false
+				}
+			}
 			cr := rn.callers[st.K]
-			if cr != nil && cr.res == nil {
-				cr.cancelled = true
-				rn.event(Event{E: "cancel", K: st.K})
-				cr.cancel()
-				deadline := time.After(waitBound)
-				for cr.res == nil {
-					select {
-					case r := <-rn.results:
-						rn.gotResult(r)
-					case <-deadline:
-						c.Hang = "cancel: caller did not return"
-						ok = false
-						cr.res = &callRes{k: st.K, kind: "none"}
+			if cr != nil && cr.res == nil && cr.seen && !cr.dropped {
+				if _, waiting := rn.pending[cr.id]; !waiting {
+					// a frame addressed to this call has been handled: the
+					// call is completing; let it return first
+					deadline := time.After(waitBound)
+					for cr.res == nil {
+						select {
+						case r := <-rn.results:
+							rn.gotResult(r)
+						case <-deadline:
+							cr.res = &callRes{k: st.K, kind: "none"}
+							c.Hang = "cancel: an answered call did not return"
+							ok = false
+						}
 					}
 				}
+			}
+			if cr != nil && cr.res == nil {
+				ok = rn.endContext(st.K, "pending")
+			} else if cr != nil {
+				cr.cancel()
 			}
 		}
 	}
 	// teardown: the peer goes away; then every caller is collected
+	for more := ok && len(rn.stray) > 0 && rn.reqs != nil; more; {
+		select {
+		case data, open := <-rn.reqs:
+			if !open || !rn.strayRequest(data) {
+				more = false
+			}
+		default:
+			more = false
+		}
+	}
 	if ok && !rn.exited() {
 		rn.event(Event{E: "readerr"})
 		rpcx.Underlying(pair.B).Close()
@@ -1277,7 +1716,7 @@ func (rn *runner) run() {
 			rn.event(Event{E: "refused", K: k})
 		}
 		o := CallerObs{K: k, Kind: cr.spec.Kind, Typ: kinds[cr.spec.Kind].typ, Sent: cr.seen,
-			Res: cr.res.kind, Fields: cr.res.fields, Cancelled: cr.cancelled, Late: cr.late}
+			Res: cr.res.kind, Fields: cr.res.fields, Cancelled: cr.cancelled, Late: cr.late, When: cr.when}
 		if cr.seen {
 			o.ID = strconv.FormatUint(cr.id, 10)
 		}
@@ -1288,7 +1727,7 @@ func (rn *runner) run() {
 func runHistory(c *Case, tap *rpcx.LogTap) {
 	tap.Reset()
 	rn := &runner{c: c, tap: tap, results: make(chan callRes, 4096),
-		callers: map[int]*caller{}, pending: map[uint64]int{}}
+		callers: map[int]*caller{}, pending: map[uint64]int{}, stray: map[int]bool{}}
 	c.Events = []Event{}
 	c.Frames = []SentFrame{}
 	c.Callers = []CallerObs{}
